@@ -169,6 +169,54 @@ impl Check for C02 {
             subs.push((si, FaultKind::Drop, AdvMode::Scripted));
             subs.push((si, FaultKind::SwapNext, AdvMode::Scripted));
         }
+        // two cooperating online-phase faults towards one recipient: an altered input-phase bit
+        // (masked input / mask share) together with an altered output-phase bit (lambda value /
+        // output mask share) - the adaptive attacker that makes its later lie fit its earlier one
+        let mut pairs: Vec<Vec<crate::sim::Fault>> = vec![];
+        {
+            let bool_sites = |phases: &[&str]| -> Vec<(usize, Vec<usize>)> {
+                let mut v = vec![];
+                for (si, s) in ss.iter().enumerate() {
+                    if !phases.contains(&s.phase.as_str()) {
+                        continue;
+                    }
+                    let m = &r.run.transcript[s.tr];
+                    if let (Some(t), Ok(val)) = (crate::schema::msg_type(&s.phase), crate::schema::decode_msg(&s.phase, &m.data)) {
+                        for path in crate::schema::paths(&val, &t, &|v, _| matches!(v, crate::schema::V::Bool(_))) {
+                            v.push((si, path));
+                        }
+                    }
+                }
+                v
+            };
+            let first = bool_sites(&["masked inputs", "wire shares"]);
+            let second = bool_sites(&["lambda", "output wire shares"]);
+            for (s1, p1) in &first {
+                for (s2, p2) in &second {
+                    if ss[*s1].to != ss[*s2].to {
+                        continue;
+                    }
+                    pairs.push(vec![
+                        fault_at(cfg.c, &ss[*s1], FaultKind::Mutate(MutSpec::At { path: p1.clone(), op: mutate::LeafOp::FlipBool })),
+                        fault_at(cfg.c, &ss[*s2], FaultKind::Mutate(MutSpec::At { path: p2.clone(), op: mutate::LeafOp::FlipBool })),
+                    ]);
+                }
+            }
+        }
+        for (i, faults) in pairs.iter().enumerate() {
+            if i as u64 % SHARDS != shard {
+                continue;
+            }
+            let spec = attacked_spec(&cfg, AdvMode::Scripted, faults.clone(), vec![], None, &r.decisions);
+            cx.begin(&serde_json::to_value(&spec).unwrap());
+            let run = run_attack(&spec, Some(r.run.clone()));
+            out.evals += 1;
+            out.sim_steps += run.res.steps;
+            out.merge_fired(&run.res.fired);
+            out.count("two_fault_combinations", 1);
+            out.distinct.push(entropy::fnv(0, serde_json::to_string(&(&spec.faults, cfg.base.seed)).unwrap().as_bytes()));
+            out.violations.extend(c02_oracle(&spec, &run));
+        }
         if frac > 1 {
             let off = entropy::mix(seed, 0xc02f, 0) % frac;
             subs = subs.into_iter().enumerate().filter(|(i, _)| (*i as u64 + off) % frac == 0).map(|(_, s)| s).collect();
